@@ -36,27 +36,27 @@ Proof.
 Qed.
 
 Lemma no_early_cleared :
-  forall c async st, c <> Accepter -> sreach (sys_1 skel c async) st ->
+  forall c async st, sreach (sys_1 skel c async) st ->
     inv_cleared (sys_1 skel c async) st = true /\
     inv_no_early_quiet (sys_1 skel c async) st = true.
 Proof.
-  intros c a st Hc H. pose proof (one_checked c a) as K. unfold one_inv in K.
-  destruct c; [| |congruence]; simpl in K; split; bundle K.
+  intros c a st H. pose proof (one_checked c a) as K. unfold one_inv in K.
+  destruct c; simpl in K; split; bundle K.
 Qed.
 
 Lemma no_early_strong :
-  forall c async st, c <> Accepter ->
+  forall c async st,
     (sreach (sys_tm skel c async) st -> inv_no_early_strong (sys_tm skel c async) st = true) /\
     (sreach (sys_1 skel c async) st -> inv_no_early_strong (sys_1 skel c async) st = true) /\
     (sreach (sys_extend_n skel c 2 async) st -> inv_no_early_strong (sys_extend_n skel c 2 async) st = true).
 Proof.
-  intros c a st Hc.
+  intros c a st.
   assert (K1 : scheck (sys_tm skel c a) (strong_tm_inv (sys_tm skel c a)) = true)
-    by (destruct c; [apply read_strong_tm_checked | apply write_strong_tm_checked | congruence]).
+    by (destruct c; [apply read_strong_tm_checked | apply write_strong_tm_checked | apply accept_strong_tm_checked]).
   assert (K2 : scheck (sys_1 skel c a) (strong_one_inv c (sys_1 skel c a)) = true)
-    by (destruct c; [apply read_strong_one_checked | apply write_strong_one_checked | congruence]).
+    by (destruct c; [apply read_strong_one_checked | apply write_strong_one_checked | apply accept_strong_one_checked]).
   assert (K3 : scheck (sys_extend_n skel c 2 a) (strong_extend_inv (sys_extend_n skel c 2 a)) = true)
-    by (destruct c; [apply read_extend_checked | apply write_extend_checked | congruence]).
+    by (destruct c; [apply read_extend_checked | apply write_extend_checked | apply accept_extend_checked]).
   unfold strong_tm_inv in K1. unfold strong_one_inv in K2. unfold strong_extend_inv in K3.
   repeat split; intro H; [bundle K1 | bundle K2 | bundle K3].
 Qed.
@@ -72,27 +72,17 @@ Proof.
   repeat split; bundle K.
 Qed.
 
-Lemma deadline_change_seen_rw :
-  forall c async st, c <> Accepter -> sreach (sys_1 skel c async) st ->
+(* the FULL statement, every caller kind (F10, F11, F12 repaired) *)
+Lemma deadline_change_seen_all :
+  forall c async st, sreach (sys_1 skel c async) st ->
     inv_deadline_seen (sys_1 skel c async) st = true /\
     inv_expiry_wakes (sys_1 skel c async) st = true.
 Proof.
-  intros c a st Hc H.
+  intros c a st H.
   assert (K : scheck (sys_1 skel c a) (fixed_one_inv c (sys_1 skel c a)) = true)
-    by (destruct c; [apply read_full_checked | apply write_full_checked | congruence]).
+    by (destruct c; [apply read_full_checked | apply write_full_checked | apply accept_full_checked]).
   unfold fixed_one_inv in K. split; bundle K.
 Qed.
-
-Lemma accept_deadline_witness :
-  forall async,
-    witness (sys_none_then_set skel Accepter async) (inv_expiry_wakes (sys_none_then_set skel Accepter async)) f10_labels /\
-    witness (sys_1 skel Accepter async) (inv_cleared (sys_1 skel Accepter async)) f10_cleared_labels.
-Proof. intro a; split; apply found_witness; [apply accept_deadline_found | apply accept_cleared_found]. Qed.
-
-(* expiry_wakes follows from deadline_seen on DPast, so a refutation of the former refutes the
-   full deadline-change statement *)
-Definition deadline_change_seen_full : Prop :=
-  forall c async st, sreach (sys_1 skel c async) st -> inv_deadline_seen (sys_1 skel c async) st = true.
 
 (* ---- close / error broadcast ---- *)
 Lemma close_wakes_all :
